@@ -68,6 +68,7 @@ class Check:
         self.violations = []
         self.known_hits = []
         self.undecided = []
+        self.pending_internal = []      # refuted proof-internal obligations (see vlib/world.py), settled in finish()
         self.bounded = []
         self.finite = []
         self.samples = []
@@ -171,6 +172,17 @@ class Check:
 
     # ----------------------------------------------------------- finish
     def finish(self, explanation, checker_cmd=None):
+        for name, what, payload, backend, secs, clause, paths, model in self.pending_internal:
+            if self.violations:
+                self.fail(name, "refuted", what + "  [proof-internal obligation; reported because a property clause / stand-in of this check fails too]",
+                          replay=payload, reproduced=False)
+                self.ob(name, "violated", backend=backend, secs=secs, clause=clause, queries=paths, detail={"model": model})
+            else:
+                self.ob(name, "undecided", backend=backend, secs=secs, clause=clause, queries=paths,
+                        detail={"reason": "proof-internal obligation (loop invariant / cut assertion tied to the shape of the code) refuted, while every property "
+                                          "clause of this check is discharged and no stand-in fails: the proof needs adjusting to the new code shape; this is "
+                                          "not evidence that the property is broken", "model": model})
+        self.pending_internal = []
         wall = time.time() - self.t0
         ded = [o for o in self.obs if o.kind == "deductive"]
         n_ob = len(ded)
